@@ -197,7 +197,21 @@ pub fn uid() -> Uid {
     UID.fetch_add(1, Ordering::SeqCst)
 }
 
+/// progress counters for the L2 monitor: client-boundary events, and all events except timer ticks
+pub static CLIENT_EVENTS: AtomicU64 = AtomicU64::new(0);
+pub static NONTICK_EVENTS: AtomicU64 = AtomicU64::new(0);
+
 pub fn log(k: K) -> u64 {
+    match &k {
+        K::OpB { .. } | K::OpE { .. } | K::ClientDone { .. } => {
+            CLIENT_EVENTS.fetch_add(1, Ordering::Relaxed);
+            NONTICK_EVENTS.fetch_add(1, Ordering::Relaxed);
+        }
+        K::HIn { mk: Mk::Tick, .. } | K::HOut { mk: Mk::Tick, .. } | K::Exec { .. } => {}
+        _ => {
+            NONTICK_EVENTS.fetch_add(1, Ordering::Relaxed);
+        }
+    }
     let (vt, task) = crate::rt::now_and_task();
     let mut g = LOG.lock().unwrap_or_else(|e| e.into_inner());
     let stamp = g.len() as u64;
